@@ -479,6 +479,10 @@ func (w *qWorld) exec(op Op) {
 			w.settle()
 			w.afterSettle()
 		}
+		if w.steering {
+			w.rc.Sched.Rules = nil
+			w.steering = false
+		}
 	case "rdy":
 		if co := w.liveConsumer(op.A); co != nil {
 			if co.Closing {
